@@ -312,6 +312,7 @@ class IntraWordFilter(Filter):
         lower2upper = u("[%s][%s]") % (lowercase, uppercase)
         letter2digit = u("[%s%s][%s]") % (lowercase, uppercase, digits)
         digit2letter = u("[%s][%s%s]") % (digits, lowercase, uppercase)
+        self.boundary = None
         if splitwords and splitnums:
             splitpat = u("(%s|%s|%s)") % (lower2upper, letter2digit,
                                           digit2letter)
